@@ -9,6 +9,7 @@
   is named `…_partial` and the deviation is proved on a concrete input (`…_witness`).
 -/
 import VotelibProofs.Lemmas.Validate
+import Mathlib.Algebra.BigOperators.Group.List.Basic
 namespace VL.C20
 open VL.Validate
 
@@ -253,10 +254,18 @@ theorem validate_iff_valid_ranked_anyset (cfg : RankedCfg) (v : Obj) :
       cases this
   | _ => simp [validateRanked, ValidRankedAnySet, ValidRankedWith]
 
+/-- `isinstance(x, set)` -/
+def isMutableSet : Obj → Bool
+  | .mset _ => true
+  | _ => false
+
 /-- no mutable set at any rank -/
 def NoMutableSetRank : Obj → Prop
-  | .tuple ranks => ∀ r ∈ ranks, ∀ xs, r ≠ .mset xs
+  | .tuple ranks => ∀ r ∈ ranks, isMutableSet r = false
   | _ => True
+
+instance (v : Obj) : Decidable (NoMutableSetRank v) := by
+  unfold NoMutableSetRank; split <;> infer_instance
 
 private theorem flatMap_congr' {f g : Obj → List Obj} {l : List Obj} (h : ∀ r ∈ l, f r = g r) :
     l.flatMap f = l.flatMap g := by
@@ -273,7 +282,7 @@ theorem validRanked_iff_anyset (cfg : RankedCfg) (v : Obj) (h : NoMutableSetRank
     have he : ∀ r ∈ ranks, rankCands r = rankCandsAnySet r := by
       intro r hr
       have := h r hr
-      cases r <;> first | rfl | exact absurd rfl (this _)
+      cases r <;> first | rfl | (simp [isMutableSet] at this)
     simp only [ValidRanked, ValidRankedAnySet, ValidRankedWith, flatMap_congr' he]
     constructor
     · rintro ⟨h1, h2, h3, h4⟩
@@ -298,6 +307,16 @@ theorem validate_iff_valid_ranked_witness :
     ¬ (validateRanked ⟨Bounds.none, .all ⟨some 1, some 2⟩, .basic true⟩ (.tuple [.mset [.str 0, .str 1], .str 2]) = .ok ()
         ↔ ValidRanked ⟨Bounds.none, .all ⟨some 1, some 2⟩, .basic true⟩ (.tuple [.mset [.str 0, .str 1], .str 2])) := by
   decide +kernel
+
+/-- non-vacuity: a well-formed approval ballot on the upper bound, and a ranked ballot with a shared
+    rank and no mutable set, are valid and accepted -/
+example : (Obj.fset [.str 0, .cand .blank 1]).wf = true ∧
+    ValidApproval ⟨⟨some 1, some 2⟩, .basic true⟩ (.fset [.str 0, .cand .blank 1]) := by decide +kernel
+example : NoMutableSetRank (.tuple [.fset [.str 0, .str 1], .str 2]) ∧
+    ValidRanked ⟨⟨some 3, some 3⟩, .byKey [(1, ⟨some 2, some 2⟩)], .basic true⟩
+      (.tuple [.fset [.str 0, .str 1], .str 2]) ∧
+    ¬ ValidRanked ⟨⟨some 3, some 3⟩, .byKey [(1, ⟨some 2, some 2⟩)], .basic true⟩
+      (.tuple [.fset [.str 0, .str 1], .str 0]) := by decide +kernel
 
 /-! ## score votes -/
 
@@ -634,10 +653,9 @@ instance (val : Validator) (v : Obj) : Decidable (Valid val v) := by
 private theorem noMset_of_hashable (v : Obj) (h : v.hashable = true) : NoMutableSetRank v := by
   cases v with
   | tuple ranks =>
-    intro r hr xs he
-    subst he
+    intro r hr
     have := hashableL_iff.1 (by simpa [Obj.hashable] using h) _ hr
-    simp [Obj.hashable] at this
+    cases r <;> first | rfl | (simp [Obj.hashable] at this)
   | _ => trivial
 
 /-- for every hashable Python value (everything that can be a dictionary key) each of the five validators
@@ -706,5 +724,202 @@ theorem eliminator_removes_exactly_rejected_witness :
     ∧ [(Obj.cand .personIndep 0, (2 : Rat)), (.str 0, 1)].filter
         (fun p => decide (Valid (Validator.simple (.person true true)) p.1)) = [(.cand .personIndep 0, 2)] := by
   decide +kernel
+
+/-- the kept ballots are a sub-dictionary of the input: same order, same counts -/
+theorem eliminator_keeps_counts (val : Validator) (votes out : List (Obj × Rat))
+    (h : eliminate val.validate votes = .ok out) : out.Sublist votes := by
+  rw [(eliminate_ok h).1]
+  exact List.filter_sublist
+
+/-- non-vacuity of the eliminator theorems: a dictionary of three ranked ballots (keys well-formed and
+    hashable, none rejected with a CandidateError), of which exactly the invalid one is removed -/
+example :
+    KeysWF [(.tuple [.str 0, .str 1], 3), (.tuple [.str 0, .str 0], 5), (.tuple [.fset [.str 2, .str 3]], 7/2)] ∧
+    (∀ p ∈ [(Obj.tuple [.str 0, .str 1], (3 : Rat)), (.tuple [.str 0, .str 0], 5), (.tuple [.fset [.str 2, .str 3]], 7/2)],
+      (Validator.ranked ⟨Bounds.none, .all ⟨some 1, some 2⟩, .basic true⟩).validate p.1 ≠ .error .candidateError ∧
+      (Validator.ranked ⟨Bounds.none, .all ⟨some 1, some 2⟩, .basic true⟩).validate p.1 ≠ .error .typeError) ∧
+    eliminate (Validator.ranked ⟨Bounds.none, .all ⟨some 1, some 2⟩, .basic true⟩).validate
+      [(.tuple [.str 0, .str 1], 3), (.tuple [.str 0, .str 0], 5), (.tuple [.fset [.str 2, .str 3]], 7/2)]
+      = .ok [(.tuple [.str 0, .str 1], 3), (.tuple [.fset [.str 2, .str 3]], 7/2)] := by
+  unfold KeysWF
+  decide +kernel
+
+/-! ## which error class comes out, and exactly when a TypeError leaks -/
+
+/-- approval votes: CandidateError iff a frozenset with a member that is not admitted (the nominator is
+    consulted before the count) -/
+theorem approval_candidateError_iff (cfg : ApprovalCfg) (v : Obj) :
+    validateApproval cfg v = .error .candidateError ↔
+      ∃ xs, v = .fset xs ∧ ∃ c ∈ xs, ¬ Admits cfg.nom c := by
+  cases v with
+  | fset xs =>
+    simp only [validateApproval, Obj.fset.injEq, exists_eq_left']
+    rw [bind_err_iff]
+    constructor
+    · rintro (h | ⟨_, h⟩)
+      · obtain ⟨x, hx, he⟩ := forEach_err h
+        exact ⟨x, hx, fun ha => by rw [(nominate_ok_iff_admits _ _).2 ha] at he; cases he⟩
+      · cases check_err h
+    · rintro ⟨c, hc, hn⟩
+      left
+      rcases res_cases (forEach (nominate cfg.nom) xs) with h | ⟨e, h⟩
+      · exact absurd ((nominate_ok_iff_admits _ _).1 (forEach_ok_iff.1 h c hc)) hn
+      · obtain ⟨x, _, he⟩ := forEach_err h
+        rw [h, nominate_err he]
+  | _ => simp [validateApproval]
+
+/-- approval votes: VoteError iff not a frozenset, or all members admitted and the count out of bounds -/
+theorem approval_voteError_iff (cfg : ApprovalCfg) (v : Obj) :
+    validateApproval cfg v = .error .voteError ↔
+      (∀ xs, v ≠ .fset xs) ∨ ∃ xs, v = .fset xs ∧ (∀ c ∈ xs, Admits cfg.nom c) ∧ ¬ Within cfg.count xs.length := by
+  cases v with
+  | fset xs =>
+    simp only [validateApproval, ne_eq, Obj.fset.injEq, forall_eq', false_or, exists_eq_left']
+    rw [bind_err_iff, forEach_ok_iff]
+    simp only [nominate_ok_iff_admits]
+    constructor
+    · rintro (h | ⟨h1, h⟩)
+      · obtain ⟨x, _, he⟩ := forEach_err h
+        cases nominate_err he
+      · exact ⟨h1, fun hw => by rw [check_ok_iff.2 hw] at h; cases h⟩
+    · rintro ⟨h1, h2⟩
+      right
+      refine ⟨h1, ?_⟩
+      rcases res_cases (cfg.count.check (xs.length : Nat)) with h | ⟨e, h⟩
+      · exact absurd (check_ok_iff.1 h) h2
+      · rw [h, check_err h]
+  | _ => simp [validateApproval]
+
+/-- **exactly when** the parent-class check of the score validators leaks a TypeError: the ballot passes
+    every earlier check (count, pair shape, nominator, duplicates), a sum bound is configured for this number
+    of scorings, and some score is not a number -/
+theorem scoreBase_typeError_iff (cfg : ScoreCfg) (v : Obj) :
+    validateScoreBase cfg v = .error .typeError ↔
+      ∃ items, v = .fset items ∧ Within cfg.nScorings items.length ∧
+        (∀ it ∈ items, it.asPair.isSome = true) ∧ (∀ c ∈ candsOf items, Admits cfg.nom c) ∧
+        (candsOf items).Nodup ∧ (cfg.sum.get items.length).active = true ∧
+        ∃ s ∈ scoresOf items, s.isNum = false := by
+  constructor
+  · intro h
+    obtain ⟨items, rfl, hact, hs⟩ := scoreBase_typeError cfg v h
+    refine ⟨items, rfl, ?_⟩
+    -- the same ballot under the configuration without sum bounds is accepted
+    have hok : validateScoreBase ⟨cfg.nScorings, .all Bounds.none, cfg.nom⟩ (.fset items) = .ok () := by
+      simp only [validateScoreBase] at h ⊢
+      rcases bind_err_iff.1 h with h1 | ⟨h0, h1⟩
+      · cases check_err h1
+      · rcases bind_err_iff.1 h1 with h2 | ⟨h00, h2⟩
+        · rcases scoreItems_err h2 with h3 | h3 <;> cases h3
+        · rw [bind_ok_iff, bind_ok_iff]
+          refine ⟨h0, h00, ?_⟩
+          split at h2
+          · rename_i hh; simp only [hh, if_true]; exact absurd h2 (by
+              have hA := (scoreItems_ok_iff_spec.1 h00).2
+              have : hashableL (candsOf items) = true :=
+                hashableL_iff.2 (fun c hc => nominate_ok_hashable ((nominate_ok_iff_admits _ _).2 (hA c hc)))
+              simp [this] at hh)
+          · rename_i hh
+            simp only [hh]
+            split at h2
+            · cases h2
+            · rename_i hd
+              simp [hd, BoundMap.get, Bounds.active, Bounds.none]
+    obtain ⟨hP, hA, hnd, hN, _⟩ := (validateScoreBase_iff _ items).1 hok
+    exact ⟨hN, hP, hA, hnd, hact, hs⟩
+  · rintro ⟨items, rfl, hN, hP, hA, hnd, hact, s, hs, hn⟩
+    have hh : hashableL (candsOf items) = true :=
+      hashableL_iff.2 (fun c hc => nominate_ok_hashable ((nominate_ok_iff_admits _ _).2 (hA c hc)))
+    have hok : validateScoreBase ⟨cfg.nScorings, .all Bounds.none, cfg.nom⟩ (.fset items) = .ok () :=
+      (validateScoreBase_iff _ items).2 ⟨hP, hA, hnd, hN, fun h => by simp [BoundMap.get, Bounds.active, Bounds.none] at h⟩
+    simp only [validateScoreBase] at hok ⊢
+    rw [bind_ok_iff, bind_ok_iff] at hok
+    obtain ⟨h0, h00, h2⟩ := hok
+    rw [bind_err_iff]; right; refine ⟨h0, ?_⟩
+    rw [bind_err_iff]; right; refine ⟨h00, ?_⟩
+    simp only [hh, Bool.not_true, Bool.false_eq_true, if_false] at h2 ⊢
+    split at h2
+    · cases h2
+    · rename_i hd
+      simp only [hd, if_false, hact, if_true]
+      rw [sumScores_eq_none.2 ⟨s, hs, hn⟩]
+
+/-- the enumerated-score validator leaks a TypeError exactly when its parent-class check does -/
+theorem enumscore_typeError_iff (cfg : EnumCfg) (v : Obj) :
+    validateEnumScore cfg v = .error .typeError ↔ validateScoreBase cfg.base v = .error .typeError := by
+  unfold validateEnumScore
+  rw [bind_err_iff]
+  constructor
+  · rintro (h | ⟨_, h⟩)
+    · exact h
+    · cases v with
+      | fset items =>
+        simp only at h
+        obtain ⟨s, _, hs⟩ := forEach_err h
+        split at hs <;> cases hs
+      | _ => simp at h
+  · exact Or.inl
+
+/-! ## acceptance does not depend on the iteration order of a set -/
+
+theorem valid_approval_perm (cfg : ApprovalCfg) {xs ys : List Obj} (h : xs.Perm ys) :
+    ValidApproval cfg (.fset xs) ↔ ValidApproval cfg (.fset ys) := by
+  simp only [ValidApproval, h.mem_iff, h.nodup_iff, h.length_eq]
+
+theorem validScoreBase_perm (cfg : ScoreCfg) {xs ys : List Obj} (h : xs.Perm ys) :
+    ValidScoreBase cfg xs ↔ ValidScoreBase cfg ys := by
+  have hp : (pairsOf xs).Perm (pairsOf ys) := h.filterMap _
+  have hc : (candsOf xs).Perm (candsOf ys) := hp.map _
+  have hs : (scoresOf xs).Perm (scoresOf ys) := hp.map _
+  have hsum : ((scoresOf xs).map Obj.numVal).sum = ((scoresOf ys).map Obj.numVal).sum := (hs.map _).sum_eq
+  simp only [ValidScoreBase, h.mem_iff, hc.mem_iff, hc.nodup_iff, h.length_eq, hs.mem_iff, hsum]
+
+theorem valid_enumscore_perm (cfg : EnumCfg) {xs ys : List Obj} (h : xs.Perm ys) :
+    ValidEnumScore cfg (.fset xs) ↔ ValidEnumScore cfg (.fset ys) := by
+  have hs : (scoresOf xs).Perm (scoresOf ys) := (h.filterMap _).map _
+  simp only [ValidEnumScore, validScoreBase_perm cfg.base h, hs.mem_iff]
+
+theorem valid_range_perm (cfg : RangeCfg) {xs ys : List Obj} (h : xs.Perm ys) :
+    ValidRange cfg (.fset xs) ↔ ValidRange cfg (.fset ys) := by
+  have hs : (scoresOf xs).Perm (scoresOf ys) := (h.filterMap _).map _
+  simp only [ValidRange, validScoreBase_perm cfg.base h, hs.mem_iff]
+
+/-- hence the verdict of the score validators is the same whatever order the hash table yields (only the
+    class of the error of a rejected ballot can depend on it) -/
+theorem accept_order_independent (cfg : RangeCfg) (ecfg : EnumCfg) {xs ys : List Obj} (h : xs.Perm ys) :
+    (validateRange cfg (.fset xs) = .ok () ↔ validateRange cfg (.fset ys) = .ok ()) ∧
+    (validateEnumScore ecfg (.fset xs) = .ok () ↔ validateEnumScore ecfg (.fset ys) = .ok ()) := by
+  simp only [validate_iff_valid_range, validate_iff_valid_enumscore, valid_range_perm cfg h,
+    valid_enumscore_perm ecfg h, and_self]
+
+/-- non-vacuity: the error class does depend on the order — a non-tuple item and a non-admitted candidate -/
+example :
+    validateRange ⟨⟨Bounds.none, .all Bounds.none, .basic true⟩, Bounds.none⟩
+      (.fset [.str 0, .tuple [.num 1, .num 1]]) = .error .voteError ∧
+    validateRange ⟨⟨Bounds.none, .all Bounds.none, .basic true⟩, Bounds.none⟩
+      (.fset [.tuple [.num 1, .num 1], .str 0]) = .error .candidateError := by decide +kernel
+
+/-- non-vacuity of the score theorems: a valid range ballot on both boundaries of range and sum, an
+    invalid one (sum one half above), and the hypotheses of the `_partial` theorems -/
+example :
+    ValidRange ⟨⟨⟨some 2, some 2⟩, .byKey [(2, ⟨some 0, some (7/2)⟩)], .basic true⟩, ⟨some 0, some 3⟩⟩
+      (.fset [.tuple [.str 0, .num 3], .tuple [.str 1, .num (1/2)]]) ∧
+    ¬ ValidRange ⟨⟨⟨some 2, some 2⟩, .byKey [(2, ⟨some 0, some (7/2)⟩)], .basic true⟩, ⟨some 0, some 3⟩⟩
+      (.fset [.tuple [.str 0, .num 3], .tuple [.str 1, .num 1]]) ∧
+    ValidEnumScore ⟨⟨Bounds.none, .all Bounds.none, .party false true⟩, [.str 8, .str 9]⟩
+      (.fset [.tuple [.cand .party 0, .str 8], .tuple [.cand .blank 0, .str 9]]) := by decide +kernel
+
+instance (cfg : ScoreCfg) (v : Obj) : Decidable (ScoresNumericWhereSummed cfg v) := by
+  unfold ScoresNumericWhereSummed; split <;> infer_instance
+instance (b : Bounds) (v : Obj) : Decidable (ScoresNumericWhereRanged b v) := by
+  unfold ScoresNumericWhereRanged; split <;> infer_instance
+
+example :
+    ScoresNumericWhereSummed ⟨Bounds.none, .all ⟨some 0, some 5⟩, .basic true⟩
+      (.fset [.tuple [.str 0, .num 3], .tuple [.str 1, .num 4]]) ∧
+    ScoresNumericWhereRanged ⟨some 0, some 3⟩ (.fset [.tuple [.str 0, .num 3], .tuple [.str 1, .num 4]]) ∧
+    validateRange ⟨⟨Bounds.none, .all ⟨some 0, some 5⟩, .basic true⟩, ⟨some 0, some 3⟩⟩
+      (.fset [.tuple [.str 0, .num 3], .tuple [.str 1, .num 4]]) = .error .voteError ∧
+    (Obj.tuple [.fset [.str 0, .list [.str 1]]]).wf = false ∧
+    (Obj.tuple [.fset [.str 0, .tuple [.str 1]], .mset [.str 2], .list [.str 3]]).wf = true := by decide +kernel
 
 end VL.C20
